@@ -89,6 +89,13 @@ def cases(desc):
     for k, t in enumerate(cc):
         if k % n == i:
             yield "enum-case-colliding-names", t
+    # names that collide with the literal encoding of a negation ('-A' is a legal feature name)
+    dd = formulas.formulas(2, ("A", "-A", "B"))
+    if len(dd) > desc.get("n_case", 10 ** 9):
+        dd = rand.rng(seed, "c18dd").sample(dd, desc["n_case"])
+    for k, t in enumerate(dd):
+        if k % n == i:
+            yield "enum-dash-names", t
     if i == 0:
         for name, (mk, kind) in formulas.SIMPLE_FORMS.items():
             for a in "ABC":
@@ -227,12 +234,53 @@ def judge(acc, cls, t, payload):
     acc.count("truth-tables")
 
 
+def history_setter(acc, t1, t2):
+    """History on ONE Constraint object: query everything, replace the formula through the public `ast`
+    setter, query again at once (no other constraint in between): the answers must be those of a fresh
+    Constraint built from the new formula."""
+    from flamapy.core.models.ast import AST
+    from flamapy.metamodels.fm_metamodel.models import Constraint
+    from flamapy.metamodels.fm_metamodel.models import feature_model as FM
+    Q = ("is_logical_constraint", "is_single_feature_constraint", "is_simple_constraint", "is_complex_constraint",
+         "is_requires_constraint", "is_excludes_constraint", "is_pseudocomplex_constraint", "is_strictcomplex_constraint")
+
+    def answers(c):
+        out = {m: getattr(c, m)() for m in Q}
+        out["features"] = sorted(c.get_features())
+        out["split"] = [S.obs_ast(p.ast.root) for p in FM.split_constraint(c)]
+        return out
+    payload = {"cls": "history:ast-setter", "ast": t2, "before": t1}
+    try:
+        c = Constraint("T", AST(S.build_ast(t1)))
+        answers(c)
+        c.ast = AST(S.build_ast(t2))
+        got = answers(c)
+        want = answers(Constraint("T", AST(S.build_ast(t2))))
+    except Exception as e:  # noqa: BLE001
+        acc.fail("history:ast-setter", "no-exception", W, [], f"raises:{type(e).__name__}", str(e)[:200], payload)
+        return
+    if got != want:
+        bad = [k for k in want if got[k] != want[k]]
+        acc.fail("history:ast-setter", "history:answers-follow-the-current-formula", W, [], "stale-answer",
+                 f"after replacing {t1} by {t2}: {bad} differ from a fresh constraint ({got[bad[0]]!r} vs {want[bad[0]]!r})",
+                 payload, S.digest([t1, t2]))
+    else:
+        acc.held("history:ast-setter", S.digest([t1, t2]))
+
+
 def run_shard(desc, acc):
-    for cls, t in cases(desc):
+    prev = None
+    for k, (cls, t) in enumerate(cases(desc)):
         judge(acc, cls, t, {"cls": cls, "ast": t})
+        if prev is not None and k % 7 == 0 and S.is_logical_ast(t) and S.is_logical_ast(prev) and isinstance(t, list):
+            history_setter(acc, prev, t)
+        prev = t
         if len(acc.samples) < 4 and cls.startswith("random"):
             acc.sample({"class": cls, "ast": t})
 
 
 def replay(payload, acc):
+    if payload.get("cls") == "history:ast-setter":
+        history_setter(acc, payload["before"], payload["ast"])
+        return
     judge(acc, payload["cls"], payload["ast"], payload)
